@@ -324,6 +324,53 @@ def r5_references(ctx, sym, cls, mod):
     return unresolved
 
 
+def r8_value_access(ctx, sym, mod):
+    ctx.rule('R8', "SandboxResult.__getattribute__, executed abstractly: `value` (which every dunder of the proxy reads) "
+                   "and `_actual_value` are the wrapped object itself - also when that object has an attribute named "
+                   "value of its own -, __class__ is the wrapped object's class, and any other attribute is the "
+                   "wrapped object's attribute, proxied again")
+    from .. import symexec
+    fn = mod.func('SandboxResult.__getattribute__')
+    ctx.analysed_function(mod, fn)
+    for has_own_value in (False, True):
+        rec = symexec.Recorder()
+        own = symexec.marker('the-object.value')
+        other = symexec.marker('the-object.other')
+        wrapped = Obj('the-object', other=other, __class__=symexec.marker('class-of-the-object'))
+        if has_own_value:
+            wrapped.attrs['value'] = own
+        wrapped.attrs['__closed__'] = True
+        me = Obj('proxy', value=wrapped, _actual_context_id=7, _actual_sandbox=symexec.marker('sandbox'),
+                 __class__=symexec.marker('SandboxResult-class'))
+        me.attrs['__closed__'] = True
+
+        def raw_get(o, name):
+            if isinstance(o, Obj) and name in o.attrs:
+                return o.attrs[name]
+            raise Raised('AttributeError', name)
+        ctor = rec.stub('SandboxResult', fn=lambda *a, **k: Obj('new-proxy', args=a))
+        ctor.ASSIGNABLE_ATTRS = None
+        fd = symexec.new_fd(sym, mod, calls={
+            'object.__getattribute__': raw_get, 'SandboxResult': ctor,
+            'hasattr': lambda o, n: isinstance(o, Obj) and n in o.attrs,
+            'getattr': lambda o, n, *d: o.attrs[n] if isinstance(o, Obj) and n in o.attrs else (d[0] if d else None)})
+        tag = '[object %s an attribute `value`]' % ('with' if has_own_value else 'without')
+        for name, want in (('value', wrapped), ('_actual_value', wrapped),
+                           ('__class__', wrapped.attrs['__class__'])):
+            got, raised = symexec.run(fd, fn, [name], bound_self=me, what='SandboxResult.__getattribute__')
+            ctx.check(raised is None and got is want, 'R8', '__getattribute__(%s)%s' % (name, tag), mod, fn,
+                      "proxy.%s is %r%s, expected %r" % (name, got, '' if raised is None else ' (raises %s)' %
+                                                         raised.kind, want),
+                      "student code returning an object with a field called value (a Card, a linked-list node): "
+                      "str(), ==, len(), + on the proxy act on that field instead of on the object")
+        got, raised = symexec.run(fd, fn, ['other'], bound_self=me, what='SandboxResult.__getattribute__')
+        ok = raised is None and isinstance(got, Obj) and got._name == 'new-proxy' and got.attrs['args'] and \
+            got.attrs['args'][0] is other
+        ctx.check(ok, 'R8', '__getattribute__(other)%s' % tag, mod, fn,
+                  "an ordinary attribute of the wrapped object is not returned as a new proxy around that attribute "
+                  "(got %r)" % (got,), "call('make').field")
+
+
 def r6_len(ctx, mod):
     ctx.rule('R6', "the module-level replacement len() calls the saved original on its non-proxy branch (a self-call "
                    "with the unchanged argument is definite infinite recursion)")
@@ -380,6 +427,7 @@ def run(ctx):
     r4_operator_semantics(ctx, cls, mod, methods, unresolved)
     r4c_comparisons(ctx, cls, mod, methods)
     r6_len(ctx, mod)
+    r8_value_access(ctx, sym, mod)
     r7_operators_for_containers(ctx, cls, mod)
     ctx.assume("value classes whose __op__ and reflected __rop__ disagree with each other are not modelled")
     ctx.assume("CPython's binary operator protocol (own method, then reflected method, then TypeError) is the oracle")
